@@ -192,6 +192,11 @@ FM_MC = """SPECIFICATION Spec
 CONSTANTS
   Syms = {%(syms)s}
   MaxLen = %(maxlen)d
+  Widths = {%(widths)s}
+  Fills = {%(fills)s}
+  BV = {%(bv)s}
+  AIdx = {%(aidx)s}
+  MV = {%(mv)s}
 INVARIANT Lemmas
 CHECK_DEADLOCK FALSE
 """
@@ -199,7 +204,12 @@ FM_GEN = """SPECIFICATION GSpec
 CONSTANTS
   Syms = {%(syms)s}
   MaxLen = %(maxlen)d
-  Kinds = {"streq", "nocase", "checkeq", "bineq"}
+  Widths = {%(widths)s}
+  Fills = {%(fills)s}
+  BV = {%(bv)s}
+  AIdx = {%(aidx)s}
+  MV = {%(mv)s}
+  Kinds = {"streq", "nocase", "checkeq", "bineq", "bitseq"}
 INVARIANT Dump
 CHECK_DEADLOCK FALSE
 """
@@ -207,6 +217,11 @@ FM_TRACE = """SPECIFICATION %(spec)s
 CONSTANTS
   Syms = {1}
   MaxLen = 1
+  Widths = {1}
+  Fills = {0}
+  BV = {0}
+  AIdx = {1}
+  MV = {0}
 %(tail)s
 CHECK_DEADLOCK FALSE
 """
@@ -222,9 +237,66 @@ def printed(codes):
     return "".join({6: "\\n", 7: "\\x01"}.get(c, BYTE[c]) for c in codes)
 
 
+def hex8(v):
+    return "%016x" % (v & 0xFFFFFFFFFFFFFFFF)
+
+
+def bits_sweep():
+    """Every operand width 1..8 with every one of the 64 bit positions: a single 1 / a single 0 in expected under the full mask,
+    and a full-ones expected against zero under a mask that selects / excludes a single position."""
+    full = 0xFFFFFFFFFFFFFFFF
+    rows = []
+    for w in range(1, 9):
+        for p in range(64):
+            b = 1 << p
+            rows.append(["bitseq", hex8(b), hex8(0), hex8(full), w])
+            rows.append(["bitseq", hex8(full ^ b), hex8(full), hex8(full), w])
+            rows.append(["bitseq", hex8(full), hex8(0), hex8(b), w])
+            rows.append(["bitseq", hex8(full), hex8(0), hex8(full ^ b), w])
+    return rows
+
+
+def bits_random(rng, n):
+    """Seeded random failing BITS_EQUAL checks: any width, 64-bit operands of several shapes (uniform, sparse, dense, the two
+    halves alike), actual = another value or expected with a few bits flipped, masks full / uniform / one byte / sparse."""
+    full = 0xFFFFFFFFFFFFFFFF
+    def val():
+        r = rng.random()
+        v = rng.getrandbits(64)
+        if r < 0.4:
+            return v
+        if r < 0.6:
+            return v & rng.getrandbits(64) & rng.getrandbits(64)
+        if r < 0.8:
+            return v | rng.getrandbits(64) | rng.getrandbits(64)
+        if r < 0.9:
+            return (v & 0xFFFFFFFF) * 0x100000001
+        return rng.choice([0, full, 1 << 63, 1, 0xFFFFFFFF, 0xFFFFFFFF00000000])
+    rows = []
+    while len(rows) < n:
+        w = rng.randint(1, 8)
+        e = val()
+        if rng.random() < 0.5:
+            a = e
+            for _ in range(rng.randint(1, 3)):
+                a ^= 1 << rng.randrange(64)
+        else:
+            a = val()
+        r = rng.random()
+        m = full if r < 0.3 else (rng.getrandbits(64) if r < 0.6 else (0xFF << (8 * rng.randrange(8)) if r < 0.75 else val()))
+        if (e & m) == (a & m):
+            continue        # BITS_EQUAL would not fail
+        rows.append(["bitseq", hex8(e), hex8(a), hex8(m), w])
+    return rows
+
+
 def fm_key(kind, ex, idx, observed):
     if idx >= len(ex):
         return "%s:end" % kind
+    if ex[idx][0] == "bitseq":
+        w = int(ex[idx][4])
+        what = "unsafe" if (observed or {}).get("safe") is False else "says"
+        return "%s:bitseq:%s:%s" % (kind, what, "width-1-4-bytes" if w <= 4 else "width-5-8-bytes")
     k, eh, ah = ex[idx][0], ex[idx][1], ex[idx][2]
     if eh == "-" or ah == "-":
         rel = "null-operand"
@@ -235,6 +307,18 @@ def fm_key(kind, ex, idx, observed):
                                            ("long-operands" if len(e) > 100 else "different-printed-form"))
     what = "unsafe" if (observed or {}).get("safe") is False else "says"
     return "%s:%s:%s:%s" % (kind, k, what, rel)
+
+
+def unsafe_line(line, why):
+    """The log line the orchestrator writes for a row on which the real code died."""
+    f = line.split("\t") + ["", ""]
+    if f[0] == "bitseq":
+        by = lambda h: list(bytes.fromhex(h))
+        return json.dumps({"op": "bitseq", "w": int(f[4]), "e": by(f[1]), "a": by(f[2]), "m": by(f[3]), "has_e": True, "has_a": True,
+                           "eb": [], "ab": [], "msglen": 0, "safe": False, "why": why[:200]})
+    unhex = lambda h: [CODE.get(chr(int(h[i:i + 2], 16)), 100) for i in range(0, len(h), 2)] if h != "-" else []
+    return json.dumps({"op": f[0], "e": unhex(f[1]), "a": unhex(f[2]), "enull": f[1] == "-", "anull": f[2] == "-",
+                       "haspos": False, "pos": 0, "has_e": True, "has_a": True, "raw": False, "msglen": 0, "safe": False, "why": why[:200]})
 
 
 def fm_harness(ctx, exe):
@@ -268,15 +352,12 @@ def fm_harness(ctx, exe):
             if len(done) >= len(lines):
                 break
             # the row at index len(done) was not survived
-            why = crashed(rc, out) or ("rc=%s" % rc)
-            f3 = (lines[len(done)].split("\t") + ["", ""])[:3]
-            unhex = lambda h: [CODE.get(chr(int(h[i:i + 2], 16)), 100) for i in range(0, len(h), 2)] if h != "-" else []
-            done.append(json.dumps({"op": f3[0], "e": unhex(f3[1]), "a": unhex(f3[2]), "enull": f3[1] == "-", "anull": f3[2] == "-",
-                                    "haspos": False, "pos": 0, "has_e": True, "has_a": True, "raw": False, "msglen": 0, "safe": False,
-                                    "why": why[:200]}))
+            done.append(unsafe_line(lines[len(done)], crashed(rc, out) or ("rc=%s" % rc)))
             restarts += 1
-            if restarts > 3000:
-                raise Infra("failmsg harness dies on too many rows")
+            if restarts >= 60:
+                # conform reports at most a dozen rejected rows per table; executing thousands of further rows one process each
+                # adds nothing: the remaining rows are marked as not executed (they would be rejected, were they ever reached)
+                done += [json.dumps({"op": "reset"}) if l == "reset" else unsafe_line(l, "not executed: 60 earlier rows were not survived") for l in lines[len(done):]]
         with open(logp, "w") as f:
             f.write("\n".join(done) + "\n")
         return 0, "", False
@@ -287,10 +368,21 @@ def message_part(ctx, nontrivial):
     quick = ctx.quick
     exe = ctx.build_harness("failmsg", "asan")
     lat = {"syms": "1, 2, 4, 5, 6, 7", "maxlen": 2} if quick else {"syms": "1, 2, 4, 5, 6", "maxlen": 3}
+    # bits-equal kind: widths 1..8, 64-bit operands and masks as 8 bytes built from the byte lattice
+    lat.update({"widths": "1, 2, 3, 4, 5, 6, 7, 8", "fills": "0, 255", "bv": "129", "aidx": "8", "mv": "15"} if quick else
+               {"widths": "1, 2, 3, 4, 5, 6, 7, 8", "fills": "0, 255", "bv": "1, 128", "aidx": "1, 5, 8", "mv": "15, 255"})
     r = ctx.model_check("FailMsg", ctx.write_cfg("MC_FailMsg", FM_MC % lat), workers=4, timeout=1500, heap="6g")
     ctx.notes["model_messages"] = {"lattice": lat}
     g = ctx.tlc("Gen_FailMsg", ctx.write_cfg("Gen_FailMsg", FM_GEN % lat), workers=8, timeout=1800, heap="8g")
-    rows = [[b["kind"], tohex(b["e"]), tohex(b["a"])] for b in g.beh]
+    rows = [[b["kind"], tohex(b["e"]), tohex(b["a"])] for b in g.beh if b["kind"] != "bitseq"]
+    bits = [["bitseq", bytes(b["e"]).hex(), bytes(b["a"]).hex(), bytes(b["m"]).hex(), b["w"]] for b in g.beh if b["kind"] == "bitseq"]
+    if not bits:
+        raise Infra("no bits-equal rows generated by Gen_FailMsg")
+    ctx.notes["bits_rows_lattice"] = len(bits)
+    bits += bits_sweep() + bits_random(ctx.rng, 400 if quick else 6000)
+    ctx.notes["bits_rows_total"] = len(bits)
+    ctx.sample({"source": "bits-equal rows (TLC lattice, position sweep, seeded random)", "execution": ["\t".join(map(str, r_)) for r_ in bits[:3] + bits[-3:]]})
+    rows += bits
     if not rows:
         raise Infra("no rows generated by Gen_FailMsg")
     # beyond the lattice: NULL operands, very long operands (difference at the very end / in the middle), empty vs long
@@ -306,7 +398,7 @@ def message_part(ctx, nontrivial):
     rows += [["streq", "", tohex([8] * 5000)], ["checkeq", tohex([8] * 5000), tohex([8] * 5000)]]
     ctx.rng.shuffle(rows)
     execs = [[r_] for r_ in rows]
-    ctx.sample({"source": "TLC table Gen_FailMsg", "execution": ["\t".join(r_) for r_ in rows[:6]]})
+    ctx.sample({"source": "TLC table Gen_FailMsg", "execution": ["\t".join(map(str, r_)) for r_ in rows[:6]]})
     tcfg = ctx.write_cfg("Trace_FailMsg", FM_TRACE % {"spec": "TSpec", "tail": "POSTCONDITION Accepted"})
     pcfg = ctx.write_cfg("Predict_FailMsg", FM_TRACE % {"spec": "PSpec", "tail": "INVARIANT Predict"})
     conform(ctx, "messages", execs, fm_harness(ctx, exe), "Trace_FailMsg", tcfg, pcfg, fm_key, tlc_timeout=2400, max_report=6, heap="8g")
@@ -340,7 +432,9 @@ def run(ctx):
         rule="buffer: TLC-generated call sequences (exhaustive to depth D over long/short file names and leak batches; simulation to depth 14 "
              "over file-name lengths 0..5000, sizes 0..5000, 1..3000 leaks) plus seeded random histories on the real MemoryLeakDetector "
              "under ASan with the vsnprintf seam and the H2 hooks recorded; messages: every operand pair of the lattice for the four "
-             "position-printing failure kinds plus NULL / very long operands on the real failure classes under ASan; "
+             "position-printing failure kinds plus NULL / very long operands on the real failure classes under ASan; bits-equal failures "
+             "for every operand width 1..8 bytes: TLC byte-lattice of 64-bit operands and masks, every bit position x width sweep, seeded random "
+             "64-bit operands/masks - both operand fields must show exactly 8*width positions with the operand's own bits; "
              "distinct = distinct call sequences / rows; non-trivial (buffer) = the nominal model says the behaviour reaches a report begun "
              "above the lowered limit or a truncated listing, or it is a random history; (messages) every row is a failing check",
         distinct_nontrivial=len(nontrivial), exhaustive=False,
@@ -348,4 +442,5 @@ def run(ctx):
                      "Cap, the footer reservation and the fixed text lengths are measured from the code and given to TLC as constants",
                      "the exact wording of messages is not specified: only bounds, termination, the stated total, the too-many notice, the printed position",
                      "operands of the message part use ASCII symbols only (bytes >= 0x80 are C13's subject)",
+                     "bits-equal operands: unsigned long is 8 bytes (LP64); widths 1..8 = the sizes an integer actual operand of BITS_EQUAL can have; a position the mask excludes may show a don't-care mark or the operand's true bit (the wording is not specified), never a wrong bit",
                      "memory safety and termination of message construction are observed by ASan/UBSan and a deadline on the executed rows"])
